@@ -17,7 +17,9 @@ from predicate.predicate import (
     AlwaysFalsePredicate,
     AlwaysTruePredicate,
     AndPredicate,
+    IsEmptyPredicate,
     IsFalsyPredicate,
+    IsNotEmptyPredicate,
     IsTruthyPredicate,
     NotPredicate,
     OrPredicate,
@@ -40,6 +42,7 @@ from predicate.standard_predicates import (
     GePredicate,
     GtPredicate,
     IsNonePredicate,
+    IsNotNonePredicate,
     LePredicate,
     LtPredicate,
     NePredicate,
@@ -152,6 +155,12 @@ def render(dot, predicate: Predicate, node_nr):
                 return add_node("instance", label=f"is_{name}_p")
             case IsNonePredicate():
                 return add_node("none", label="x = None")
+            case IsNotNonePredicate():
+                return add_node("not_none", label="x ≠ None")
+            case IsEmptyPredicate():
+                return add_node("empty", label="empty")
+            case IsNotEmptyPredicate():
+                return add_node("not_empty", label="not empty")
             case IsRealSubsetPredicate(v):
                 return add_node("real_subset", label=f"x ⊂ {set_to_str(v)}")
             case IsSubsetPredicate(v):
